@@ -40,6 +40,7 @@ enum Op<T> {
     Binary { mode: i64, code: i64, a: usize, b: usize },
     Matmul { a: usize, b: usize },
     Map { mutating: bool, e: SExpr<T>, a: usize },
+    View { kind: i64, a: usize },
     FromIter { tensor: bool, shape: Vec<(usize, usize)>, colmajor: bool, e: SExpr<T>, a: usize },
     FromIters2 { e1: SExpr<T>, e2: SExpr<T>, a: usize },
 }
@@ -103,6 +104,7 @@ fn dec_op<T: Enc>(s: &Sx, d: usize) -> Option<Op<T>> {
             Op::FromIter { tensor, shape, colmajor, e, a }
         }
         (6, 4) => Op::FromIters2 { e1: dec_sexpr(&v[1], 12)?, e2: dec_sexpr(&v[2], 12)?, a: v[3].usize()? },
+        (7, 3) => Op::View { kind: v[1].usize()? as i64, a: v[2].usize()? },
         _ => return None,
     })
 }
@@ -138,9 +140,35 @@ fn shape_valid(sh: &[(usize, usize)], len: usize) -> bool {
 enum CObj<'a, T: Primitive, const D: usize> {
     Ten(Ten<'a, T, D>),
     Mat(Mat<'a, T>),
+    /// source: TensorAccess with the dimension order reversed
+    TenV(TenV<'a, T, D>),
+    /// source: column major interop view (MatrixRefTensor of a transposed TensorAccess)
+    MatV(MatV<'a, T>),
 }
 
-fn retype<'a, T: Real + Primitive + Clone, const D1: usize, const D2: usize>(x: &Ten<'a, T, D1>) -> Ten<'a, T, D2> {
+/// run `$body` with `$x` bound to the record tensor inside `$o`, whatever its source kind
+macro_rules! on_ten {
+    ($o:expr, $x:ident => $body:expr) => {
+        match $o {
+            CObj::Ten($x) => Some($body),
+            CObj::TenV($x) => Some($body),
+            _ => None,
+        }
+    };
+}
+macro_rules! on_mat {
+    ($o:expr, $x:ident => $body:expr) => {
+        match $o {
+            CObj::Mat($x) => Some($body),
+            CObj::MatV($x) => Some($body),
+            _ => None,
+        }
+    };
+}
+
+fn retype<'a, T: Real + Primitive + Clone, S: easy_ml::tensors::views::TensorRef<(T, Index), D1>, const D1: usize, const D2: usize>(
+    x: &RecordTensor<'a, T, S, D1>,
+) -> Ten<'a, T, D2> {
     let sh = x.shape();
     let sh2: [(&'static str, usize); D2] = std::array::from_fn(|i| sh[i]);
     RecordTensor::from_existing(x.history(), TensorView::from(Tensor::from(sh2, x.view().iter().collect())))
@@ -189,7 +217,7 @@ fn iter_err<'a, T, const D: usize>(e: InvalidRecordIteratorError<'a, T, D>) -> i
 }
 
 /// None: the case is not in the language.  Otherwise (operations completed, status)
-fn c_pass<'a, T: Real + Primitive + Enc + Clone + PartialEq + 'static, const D: usize>(
+fn c_pass<'a, T: Real + Primitive + Clone + PartialEq + 'static, const D: usize>(
     list: &'a WengertList<T>,
     other: &Record<'a, T>,
     ops: &[Op<T>],
@@ -214,77 +242,96 @@ where
                     CObj::Mat(if *var { RecordMatrix::variables(list, src) } else { RecordMatrix::constants(src) })
                 }]))
             }
-            Op::Unary { assign, code, c, a } => match env.get(*a)? {
-                CObj::Ten(x) => ten_un::<T, D>(*assign, *code, c, x, form)?.map(|y| Ok(vec![CObj::Ten(y)])),
-                CObj::Mat(x) => mat_un::<T>(*assign, *code, c, x, form)?.map(|y| Ok(vec![CObj::Mat(y)])),
-            },
+            Op::Unary { assign, code, c, a } => {
+                let o = env.get(*a)?;
+                if let Some(r) = on_ten!(o, x => ten_un::<T, _, D>(*assign, *code, c, x, form)) {
+                    r?.map(|y| Ok(vec![CObj::Ten(y)]))
+                } else if let Some(r) = on_mat!(o, x => mat_un::<T, _>(*assign, *code, c, x, form)) {
+                    r?.map(|y| Ok(vec![CObj::Mat(y)]))
+                } else {
+                    return None;
+                }
+            }
             Op::Binary { mode, code, a, b } => {
                 if *mode > 3 || (*mode == 0 && *code > 1) {
                     return None;
                 }
-                match (env.get(*a)?, env.get(*b)?) {
-                    (CObj::Ten(x), CObj::Ten(y)) => ten_bin::<T, D>(*mode, *code, x, y, form)?.map(|z| Ok(vec![CObj::Ten(z)])),
-                    (CObj::Mat(x), CObj::Mat(y)) => mat_bin::<T>(*mode, *code, x, y, form)?.map(|z| Ok(vec![CObj::Mat(z)])),
-                    _ => return None,
+                let (ox, oy) = (env.get(*a)?, env.get(*b)?);
+                if let Some(Some(r)) = on_ten!(ox, x => on_ten!(oy, y => ten_bin::<T, _, _, D>(*mode, *code, x, y, form))) {
+                    r?.map(|z| Ok(vec![CObj::Ten(z)]))
+                } else if let Some(Some(r)) = on_mat!(ox, x => on_mat!(oy, y => mat_bin::<T, _, _>(*mode, *code, x, y, form))) {
+                    r?.map(|z| Ok(vec![CObj::Mat(z)]))
+                } else {
+                    return None;
                 }
             }
-            Op::Matmul { a, b } => match (env.get(*a)?, env.get(*b)?) {
-                (CObj::Ten(x), CObj::Ten(y)) => {
+            Op::Matmul { a, b } => {
+                let (ox, oy) = (env.get(*a)?, env.get(*b)?);
+                if let Some(Some(r)) = on_ten!(ox, x => on_ten!(oy, y => {
                     if D != 2 {
                         return None;
                     }
-                    let (x2, y2) = (retype::<T, D, 2>(x), retype::<T, D, 2>(y));
-                    ten_matmul::<T>(&x2, &y2, form).map(|z| Ok(vec![CObj::Ten(retype::<T, 2, D>(&z))]))
+                    // (the const generic D is retyped to 2 through from_existing)
+                    let (x2, y2) = (retype::<T, _, D, 2>(x), retype::<T, _, D, 2>(y));
+                    ten_matmul::<T, _, _>(&x2, &y2, form)
+                })) {
+                    r.map(|z| Ok(vec![CObj::Ten(retype::<T, _, 2, D>(&z))]))
+                } else if let Some(Some(r)) = on_mat!(ox, x => on_mat!(oy, y => mat_matmul::<T, _, _>(x, y, form))) {
+                    r.map(|z| Ok(vec![CObj::Mat(z)]))
+                } else {
+                    return None;
                 }
-                (CObj::Mat(x), CObj::Mat(y)) => mat_matmul::<T>(x, y, form).map(|z| Ok(vec![CObj::Mat(z)])),
-                _ => return None,
-            },
+            }
             Op::Map { mutating, e, a } => {
                 let indexed = uses_index(e) || form % 2 == 1;
-                match env.get(*a)? {
-                    CObj::Ten(x) => guarded(|| {
-                        let r = if *mutating {
-                            let mut y = x.clone();
-                            let r = if indexed {
-                                y.map_mut_with_index(|i, r| eval::<T>(e, &r, i.iter().all(|k| *k == 0), form, other))
-                            } else {
-                                y.map_mut(|r| eval::<T>(e, &r, false, form, other))
-                            };
-                            r.map(|_| y)
-                        } else if indexed {
-                            x.map_with_index(|i, r| eval::<T>(e, &r, i.iter().all(|k| *k == 0), form, other))
+                let o = env.get(*a)?;
+                if let Some(r) = on_ten!(o, x => guarded(|| {
+                    let r = if *mutating {
+                        let mut y = x.dup();
+                        let r = if indexed {
+                            y.map_mut_with_index(|i, r| eval::<T>(e, &r, i.iter().all(|k| *k == 0), form, other))
                         } else {
-                            x.map(|r| eval::<T>(e, &r, false, form, other))
+                            y.map_mut(|r| eval::<T>(e, &r, false, form, other))
                         };
-                        match r {
-                            Ok(y) => Ok(vec![CObj::Ten(y)]),
-                            Err(_) => Err(0),
-                        }
-                    }),
-                    CObj::Mat(x) => guarded(|| {
-                        let r = if *mutating {
-                            let mut y = x.clone();
-                            let r = if indexed {
-                                y.map_mut_with_index(|r, i, j| eval::<T>(e, &r, i == 0 && j == 0, form, other))
-                            } else {
-                                y.map_mut(|r| eval::<T>(e, &r, false, form, other))
-                            };
-                            r.map(|_| y)
-                        } else if indexed {
-                            x.map_with_index(|r, i, j| eval::<T>(e, &r, i == 0 && j == 0, form, other))
+                        r.map(|_| ten_owned(&y))
+                    } else if indexed {
+                        x.map_with_index(|i, r| eval::<T>(e, &r, i.iter().all(|k| *k == 0), form, other))
+                    } else {
+                        x.map(|r| eval::<T>(e, &r, false, form, other))
+                    };
+                    match r {
+                        Ok(y) => Ok(vec![CObj::Ten(y)]),
+                        Err(_) => Err(0),
+                    }
+                })) {
+                    r
+                } else if let Some(r) = on_mat!(o, x => guarded(|| {
+                    let r = if *mutating {
+                        let mut y = x.dup();
+                        let r = if indexed {
+                            y.map_mut_with_index(|r, i, j| eval::<T>(e, &r, i == 0 && j == 0, form, other))
                         } else {
-                            x.map(|r| eval::<T>(e, &r, false, form, other))
+                            y.map_mut(|r| eval::<T>(e, &r, false, form, other))
                         };
-                        match r {
-                            Ok(y) => Ok(vec![CObj::Mat(y)]),
-                            Err(_) => Err(0),
-                        }
-                    }),
+                        r.map(|_| mat_owned(&y))
+                    } else if indexed {
+                        x.map_with_index(|r, i, j| eval::<T>(e, &r, i == 0 && j == 0, form, other))
+                    } else {
+                        x.map(|r| eval::<T>(e, &r, false, form, other))
+                    };
+                    match r {
+                        Ok(y) => Ok(vec![CObj::Mat(y)]),
+                        Err(_) => Err(0),
+                    }
+                })) {
+                    r
+                } else {
+                    return None;
                 }
             }
             Op::FromIter { tensor, shape, colmajor, e, a } => {
                 let src = env.get(*a)?;
-                if (*colmajor && matches!(src, CObj::Ten(_))) || (!*tensor && shape.len() != 2) {
+                if (*colmajor && matches!(src, CObj::Ten(_) | CObj::TenV(_))) || (!*tensor && shape.len() != 2) {
                     return None;
                 }
                 guarded(|| {
@@ -310,20 +357,23 @@ where
                             }
                         };
                     }
-                    match src {
-                        CObj::Ten(x) => collect!(x.iter_as_records().map(&mut f)),
-                        CObj::Mat(x) => {
+                    if let Some(r) = on_ten!(src, x => collect!(x.iter_as_records().map(&mut f))) {
+                        r
+                    } else {
+                        on_mat!(src, x => {
                             if *colmajor {
                                 collect!(x.iter_column_major_as_records().map(&mut f))
                             } else {
                                 collect!(x.iter_row_major_as_records().map(&mut f))
                             }
-                        }
+                        })
+                        .unwrap()
                     }
                 })
             }
-            Op::FromIters2 { e1, e2, a } => match env.get(*a)? {
-                CObj::Ten(x) => guarded(|| {
+            Op::FromIters2 { e1, e2, a } => {
+                let o = env.get(*a)?;
+                if let Some(r) = on_ten!(o, x => guarded(|| {
                     let mut first = true;
                     let [r1, r2] = RecordTensor::from_iters::<_, 2>(
                         x.shape(),
@@ -338,24 +388,68 @@ where
                         (Err(e), _) => Err(iter_err(e)),
                         (_, Err(e)) => Err(iter_err(e)),
                     }
-                }),
-                CObj::Mat(x) => guarded(|| {
-                    let mut first = true;
-                    let [r1, r2] = RecordMatrix::from_iters::<_, 2>(
-                        x.size(),
-                        x.iter_row_major_as_records().map(|r| {
-                            let f = first;
-                            first = false;
-                            [eval::<T>(e1, &r, f, form, other), eval::<T>(e2, &r, f, form, other)]
-                        }),
-                    );
-                    match (r1, r2) {
-                        (Ok(y1), Ok(y2)) => Ok(vec![CObj::Mat(y1), CObj::Mat(y2)]),
-                        (Err(e), _) => Err(iter_err(e)),
-                        (_, Err(e)) => Err(iter_err(e)),
+                })) {
+                    r
+                } else {
+                    on_mat!(o, x => guarded(|| {
+                        let mut first = true;
+                        let [r1, r2] = RecordMatrix::from_iters::<_, 2>(
+                            x.size(),
+                            x.iter_row_major_as_records().map(|r| {
+                                let f = first;
+                                first = false;
+                                [eval::<T>(e1, &r, f, form, other), eval::<T>(e2, &r, f, form, other)]
+                            }),
+                        );
+                        match (r1, r2) {
+                            (Ok(y1), Ok(y2)) => Ok(vec![CObj::Mat(y1), CObj::Mat(y2)]),
+                            (Err(e), _) => Err(iter_err(e)),
+                            (_, Err(e)) => Err(iter_err(e)),
+                        }
+                    }))
+                    .unwrap()
+                }
+            }
+            Op::View { kind, a } => {
+                let o = env.get(*a)?;
+                match kind {
+                    // column major interop matrix over the transposed 2-d record tensor
+                    0 => {
+                        if D != 2 {
+                            return None;
+                        }
+                        let x = on_ten!(o, x => retype::<T, _, D, 2>(x))?;
+                        Some(Ok(vec![CObj::MatV(make_matv(&x))]))
                     }
-                }),
-            },
+                    // record tensor over the TensorAccess with the dimensions swapped
+                    1 => {
+                        if D != 2 {
+                            return None;
+                        }
+                        let x = on_ten!(o, x => ten_owned(x))?;
+                        Some(Ok(vec![CObj::TenV(make_tenv(&x))]))
+                    }
+                    // detached constants copy with relabelled, meaningless indexes
+                    3 => {
+                        if let Some(y) = on_ten!(o, x => RecordTensor::from_existing(
+                            None,
+                            TensorView::from(Tensor::from(x.shape(), x.view().iter().map(|(v, i)| (v, i + 5000)).collect())),
+                        )) {
+                            Some(Ok(vec![CObj::Ten(y)]))
+                        } else {
+                            let y = on_mat!(o, x => RecordMatrix::from_existing(
+                                None,
+                                easy_ml::matrices::views::MatrixView::from(Matrix::from_flat_row_major(
+                                    (x.rows(), x.columns()),
+                                    x.view().row_major_iter().map(|(v, i)| (v, i + 5000)).collect(),
+                                )),
+                            ))?;
+                            Some(Ok(vec![CObj::Mat(y)]))
+                        }
+                    }
+                    _ => return None,
+                }
+            }
         };
         match r {
             None => return Some((n, Status::Panic)),
@@ -366,6 +460,8 @@ where
                     let h = match o {
                         CObj::Ten(c) => c.history(),
                         CObj::Mat(c) => c.history(),
+                        CObj::TenV(c) => c.history(),
+                        CObj::MatV(c) => c.history(),
                     };
                     if let Some(h) = h {
                         if !std::ptr::eq(h, list) {
@@ -422,6 +518,7 @@ where
                 }
                 if form % 2 == 0 { whole } else { single }
             }
+            _ => return Err(69), // inputs are declarations: owned sources
         };
         per_input.push(l(vals.iter().map(|v| v.enc()).collect()));
     }
@@ -438,7 +535,20 @@ where
     for<'t> &'t T: RealRef<T>,
 {
     let bad = l(vec![z(-2)]);
-    Ok(match &env[o] {
+    // a container over a view is reported through an owned copy of its elements
+    let owned;
+    let target = match &env[o] {
+        CObj::TenV(x) => {
+            owned = CObj::Ten(ten_owned(x));
+            &owned
+        }
+        CObj::MatV(x) => {
+            owned = CObj::Mat(mat_owned(x));
+            &owned
+        }
+        other => other,
+    };
+    Ok(match target {
         CObj::Ten(c) => {
             let sh = c.shape();
             let lens: [usize; D] = std::array::from_fn(|i| sh[i].1);
@@ -518,6 +628,7 @@ where
                 derivs,
             ])
         }
+        _ => return Err(70),
     })
 }
 
@@ -532,7 +643,7 @@ fn same_shape(tensor: bool, a: &[(usize, usize)], b: &[(usize, usize)]) -> bool 
     a.len() == b.len() && a.iter().zip(b).all(|(p, q)| (!tensor || p.0 == q.0) && p.1 == q.1)
 }
 
-fn e_pass<'a, T: Real + Primitive + Enc + Clone + PartialEq + 'static>(
+fn e_pass<'a, T: Real + Primitive + Clone + PartialEq + 'static>(
     list: &'a WengertList<T>,
     other: &Record<'a, T>,
     ops: &[Op<T>],
@@ -631,6 +742,23 @@ where
                     }]
                 })
             }
+            Op::View { kind, a } => {
+                let x = env.get(*a)?;
+                match kind {
+                    0 | 1 => {
+                        let (rows, cols) = (x.shape[0].1, x.shape[1].1);
+                        let recs: Vec<Record<'a, T>> =
+                            (0..cols).flat_map(|j| (0..rows).map(move |i| i * cols + j)).map(|k| x.recs[k].clone()).collect();
+                        let shape = if *kind == 0 { vec![(0, cols), (1, rows)] } else { vec![(x.shape[1].0, cols), (x.shape[0].0, rows)] };
+                        Some(vec![EObj { tensor: *kind == 1, shape, recs }])
+                    }
+                    _ => Some(vec![EObj {
+                        tensor: x.tensor,
+                        shape: x.shape.clone(),
+                        recs: x.recs.iter().map(|r| Record::constant(r.number.clone())).collect(),
+                    }]),
+                }
+            }
             Op::FromIters2 { e1, e2, a } => {
                 let x = env.get(*a)?;
                 guarded(|| {
@@ -689,6 +817,135 @@ fn outcome_sx<A>(n: usize, s: &Status<A>, payload: impl FnOnce(&A) -> Sx) -> Sx 
             Status::Panic => panicked(),
         },
     ])
+}
+
+// ------------------------------------------------------------------ the f64 oracle
+// Exact element types cannot see a tape entry that carries an extra parent with weight 0; with
+// floats an infinite adjoint makes it visible (inf * 0 = NaN lands in an unrelated input).  For
+// programs made of declarations, unary kinds (except Neg, whose Record form is 0 - x: -0.0 vs
+// 0.0), binary kinds (except right assign) and views, the program is therefore run once more on f64 (numbers n/d as
+// floats), containers on one tape and individual Records on another, and all values and
+// derivatives are compared bit for bit (any NaN equals any NaN).
+fn to_f64<T: Enc>(x: &T) -> Option<f64> {
+    use num_traits::ToPrimitive;
+    match x.enc() {
+        Sx::L(v) if v.len() == 2 => Some(v[0].int()?.to_f64()? / v[1].int()?.to_f64()?),
+        _ => None,
+    }
+}
+
+fn f64_ops<T: Enc>(ops: &[Op<T>]) -> Option<Vec<Op<f64>>> {
+    ops.iter()
+        .map(|op| {
+            Some(match op {
+                Op::Decl { tensor, var, shape, data } => Op::Decl {
+                    tensor: *tensor,
+                    var: *var,
+                    shape: shape.clone(),
+                    data: data.iter().map(to_f64).collect::<Option<Vec<f64>>>()?,
+                },
+                Op::Unary { assign, code, c, a } if *code != 0 => Op::Unary { assign: *assign, code: *code, c: to_f64(c)?, a: *a },
+                // (right assign records the two parents in the other order: when they are the same
+                // position - x with itself or with a view of itself - float rounding legitimately differs)
+                Op::Binary { mode, code, a, b } if *mode != 3 => Op::Binary { mode: *mode, code: *code, a: *a, b: *b },
+                Op::View { kind, a } => Op::View { kind: *kind, a: *a },
+                _ => return None,
+            })
+        })
+        .collect()
+}
+
+fn same_bits(a: f64, b: f64) -> bool {
+    (a.is_nan() && b.is_nan()) || a.to_bits() == b.to_bits()
+}
+
+/// Some(code) = the container run and the Record run differ on f64
+fn f64_oracle<const D: usize>(ops: &[Op<f64>], inputs: &[usize]) -> Option<i64> {
+    let list = WengertList::new();
+    let other_list = WengertList::new();
+    let other = Record::variable(1.0, &other_list);
+    let (_, st) = c_pass::<f64, D>(&list, &other, ops, 0)?;
+    let Status::Ok(cenv) = st else { return None };
+    let list2 = WengertList::new();
+    let other_list2 = WengertList::new();
+    let other2 = Record::variable(1.0, &other_list2);
+    let (_, st2) = e_pass::<f64>(&list2, &other2, ops)?;
+    let Status::Ok(eenv) = st2 else { return Some(620) };
+    for (o, (c, e)) in cenv.iter().zip(eenv.iter()).enumerate() {
+        let _ = o;
+        let owned;
+        let c = match c {
+            CObj::TenV(x) => {
+                owned = CObj::Ten(ten_owned(x));
+                &owned
+            }
+            CObj::MatV(x) => {
+                owned = CObj::Mat(mat_owned(x));
+                &owned
+            }
+            other => other,
+        };
+        // (value, derivatives with respect to every element of every input) per element
+        let rows: Vec<(f64, Option<Vec<f64>>)> = match c {
+            CObj::Ten(x) => {
+                let sh = x.shape();
+                let lens: [usize; D] = std::array::from_fn(|i| sh[i].1);
+                x.view()
+                    .iter()
+                    .enumerate()
+                    .map(|(k, (v, _))| {
+                        let d = guarded(|| x.derivatives_for(multi_index(&lens, k))).flatten();
+                        (v, d.map(|d| input_derivs::<D>(&d, &cenv, inputs)))
+                    })
+                    .collect()
+            }
+            CObj::Mat(x) => {
+                let cols = x.columns();
+                x.view()
+                    .row_major_iter()
+                    .enumerate()
+                    .map(|(k, (v, _))| {
+                        let d = guarded(|| x.derivatives_for(k / cols, k % cols)).flatten();
+                        (v, d.map(|d| input_derivs::<D>(&d, &cenv, inputs)))
+                    })
+                    .collect()
+            }
+            _ => return Some(621),
+        };
+        if rows.len() != e.recs.len() {
+            return Some(622);
+        }
+        for ((v, d), r) in rows.iter().zip(e.recs.iter()) {
+            if !same_bits(*v, r.number) {
+                return Some(623);
+            }
+            let ed: Option<Vec<f64>> = guarded(|| r.try_derivatives()).flatten().map(|d| {
+                inputs.iter().flat_map(|&k| eenv[k].recs.iter().map(|x| d.at(x)).collect::<Vec<f64>>()).collect()
+            });
+            match (d, &ed) {
+                (None, None) => {}
+                (Some(a), Some(b)) => {
+                    if a.len() != b.len() || a.iter().zip(b.iter()).any(|(p, q)| !same_bits(*p, *q)) {
+                        return Some(624);
+                    }
+                }
+                _ => return Some(625),
+            }
+        }
+    }
+    None
+}
+
+fn input_derivs<'a, const D: usize>(d: &Derivatives<f64>, env: &[CObj<'a, f64, D>], inputs: &[usize]) -> Vec<f64> {
+    let mut out = vec![];
+    for &k in inputs {
+        match &env[k] {
+            CObj::Ten(x) => out.extend(d.at_tensor(x).iter()),
+            CObj::Mat(x) => out.extend(d.at_matrix(x).row_major_iter()),
+            _ => {}
+        }
+    }
+    out
 }
 
 fn go_d<T: Real + Primitive + Enc + Clone + PartialEq + 'static, const D: usize>(prog: &Sx, outs: &Sx) -> Sx
@@ -790,5 +1047,11 @@ where
     }
     let _ = n2;
     let Status::Ok(_) = &st2 else { return inconsistent(610) };
+    // ---- the same program on f64 (bitwise, NaN-aware), where it applies
+    if let Some(fops) = f64_ops::<T>(&ops) {
+        if let Some(code) = f64_oracle::<D>(&fops, &inputs) {
+            return inconsistent(code);
+        }
+    }
     l(vec![pv[0].clone(), ok(l(vec![l(c_items), l(e_items)]))])
 }
